@@ -74,7 +74,7 @@ func c20Gen(r *sim.Rand, tier string) *sim.Case {
 		ncl = 1
 	}
 	cs.Knobs["ncl"] = int64(ncl)
-	cs.Knobs["skipmax"] = int64(sim.Pick(r, 1, 1, 2, 4, 16))
+	cs.Knobs["skipmax"] = int64(sim.Pick(r, 1, 1, 2, 4, 16, 64, 256))
 	cs.Knobs["maporder"] = int64(r.N(4))
 	cs.Knobs["nent"] = int64(r.Range(2, 5)) // NTEs / subscribers / MACs
 	rounds := r.Range(3, 9)
@@ -84,20 +84,29 @@ func c20Gen(r *sim.Rand, tier string) *sim.Case {
 	var gen func(cl int) sim.Op
 	var between func() []sim.Op
 	n := int(cs.Knobs["nent"])
+	hot := 0 // the round's hot entity
 	switch cs.Variant {
 	case "vlan":
 		cs.Knobs["ns"] = int64(r.Range(1, 2))
 		cs.Knobs["nc"] = int64(r.Range(1, 3))
+		// in every round half of the operations go to one "hot" NTE, so that the callers of a
+		// round meet on the same entity (allocate / move to another S-TAG / release overlapping)
+		pick := func() int64 {
+			if r.P(50) {
+				return int64(hot)
+			}
+			return int64(r.N(n))
+		}
 		gen = func(cl int) sim.Op {
 			switch r.Weighted(10, 5, 6, 2, 3) {
 			case 0:
-				return sim.Op{K: "alloc", A: []int64{int64(cl), int64(r.N(n))}}
+				return sim.Op{K: "alloc", A: []int64{int64(cl), pick()}}
 			case 1:
-				return sim.Op{K: "allocs", A: []int64{int64(cl), int64(r.N(n)), int64(r.Weighted(5, 5, 1, 1))}}
+				return sim.Op{K: "allocs", A: []int64{int64(cl), pick(), int64(r.Weighted(5, 5, 1, 1))}}
 			case 2:
-				return sim.Op{K: "release", A: []int64{int64(cl), int64(r.N(n))}}
+				return sim.Op{K: "release", A: []int64{int64(cl), pick()}}
 			case 3:
-				return sim.Op{K: "get", A: []int64{int64(cl), int64(r.N(n))}}
+				return sim.Op{K: "get", A: []int64{int64(cl), pick()}}
 			}
 			return sim.Op{K: "sync", A: []int64{int64(cl), int64(r.N(n))}}
 		}
@@ -207,6 +216,18 @@ func c20Gen(r *sim.Rand, tier string) *sim.Case {
 	}
 	total := 0
 	for i := 0; i < rounds && total < 40; i++ {
+		hot = r.N(n)
+		if cs.Variant == "vlan" && ncl >= 2 && r.P(20) {
+			// motif: an NTE is released by one caller while another moves it to a different S-TAG
+			// (and a third allocates for someone else)
+			cs.Ops = append(cs.Ops, sim.Op{K: "release", A: []int64{0, int64(hot)}}, sim.Op{K: "allocs", A: []int64{1, int64(hot), int64(r.N(2))}})
+			if ncl >= 3 {
+				cs.Ops = append(cs.Ops, sim.Op{K: "alloc", A: []int64{2, int64(r.N(n))}})
+			}
+			total += 3
+			cs.Ops = append(cs.Ops, sim.Op{K: "tick", A: []int64{1}})
+			continue
+		}
 		for cl := 0; cl < ncl; cl++ {
 			k := r.Weighted(2, 6, 3)
 			if ncl == 1 {
@@ -368,7 +389,7 @@ func init() {
 		Stub: []string{"NTE store behind LoadFromStore/SyncToNTE (in-memory map of nexus.NTE records)", "address allocator behind subscriber.Manager (lowest-free model over 1-3 addresses)",
 			"fixed-key circuit-id map (harness map keyed by the real MakeCircuitIDKey/HashCircuitID; kernel maps absent)", "callers (harness tasks)"},
 		Rule: "cases: one component per run; 3-16 rounds of 1-4 callers x 0-2 ops over <=5 NTEs/subscribers/MACs, tag ranges 1-2 outer x 1-3 inner, stored-pair loads (restart / reload, incl. conflicting records), two sessions per MAC (PPPoE session table only; state.Store records keep distinct MACs and addresses, key changes through Update), id wrap-around (65535 create/remove pairs), cleanup under virtual time; non-trivial = >=3 completed operations and (a fault fired or >2 context switches); distinct = distinct (case hash, schedule fingerprint)",
-		QuickRuns:    12000,
+		QuickRuns:    30000,
 		ThoroughRuns: 1500000,
 		Assumptions: []string{"a tag value of 0 is never offered (0 = no tag)",
 			"state.Store: live sessions (leases) never share a MAC or an address - its by-MAC / by-IP indexes are single-valued by design, so giving a key of a live record to a second record (create or update) is a caller error outside the property; two sessions from one MAC are exercised on pppoe.SessionManager only", "an operation may fail at any time unless a released key would have satisfied it; a failed operation leaves other subscribers' mappings unchanged",
